@@ -858,8 +858,12 @@ func (a *Analysis) NewlineSymmetry() *report.RuleResult {
 			c    byte
 		}
 		have := map[key]bool{}
+		haveEq := map[key]bool{}
 		for _, c := range cmps {
 			have[key{c.expr, c.c}] = true
+			if c.eq {
+				haveEq[key{c.expr, c.c}] = true
+			}
 		}
 		neighbour := func(e string, d int) []string {
 			// data[X] -> data[X+1] / data[X-1], textually for the index forms the scanner uses
@@ -892,12 +896,14 @@ func (a *Analysis) NewlineSymmetry() *report.RuleResult {
 			// CR LF pair idiom: this byte is tested for LF and its left neighbour for CR, or for CR and its right neighbour for LF
 			pair := false
 			if c.c == 10 {
+				// … and the byte before it *is* a CR
 				for _, nb := range neighbour(c.expr, -1) {
-					if have[key{nb, 13}] {
+					if haveEq[key{nb, 13}] {
 						pair = true
 					}
 				}
-			} else {
+			} else if c.eq {
+				// this byte *is* a CR and the next one is tested for LF
 				for _, nb := range neighbour(c.expr, +1) {
 					if have[key{nb, 10}] {
 						pair = true
